@@ -140,6 +140,7 @@ UpdDef == [ annA      |-> U(TRUE, {N("a", 0)}, {}, {}),
             apA1B2    |-> U(TRUE, {N("a", 1), N("b", 2)}, {}, {}),
             apC1C2    |-> U(TRUE, {N("c6", 1), N("c6", 2)}, {}, {}),           \* IPv6, two paths of one prefix
             apWdC1    |-> U(TRUE, {}, {N("c6", 1)}, {}),
+            apC1D2    |-> U(TRUE, {N("c6", 1), N("d6", 2)}, {}, {}),           \* IPv6, two prefixes with their own path ids in one MP_REACH_NLRI
             apA0A1    |-> U(TRUE, {N("a", 0), N("a", 1)}, {}, {}),             \* path identifier 0 is an identifier like any other
             apWdA0    |-> U(TRUE, {}, {N("a", 0)}, {}),
             apWdA1    |-> U(TRUE, {}, {N("a", 1)}, {}),
